@@ -7,6 +7,8 @@ import (
 	"encoding/hex"
 	"errors"
 	"io"
+	"os"
+	"syscall"
 
 	"verif/sim/core"
 )
@@ -15,7 +17,10 @@ import (
 type Step struct {
 	Kind string `json:"kind"`          // full | short | stall | err
 	N    int    `json:"n,omitempty"`   // short: bytes delivered (clamped to 1..len-1); err: bytes delivered with the error (clamped to 0..len)
-	Err  string `json:"err,omitempty"` // EOF | UnexpectedEOF | custom
+	Err  string `json:"err,omitempty"` // EOF | UnexpectedEOF | custom | EINTR | EAGAIN-path | timeout
+	// Transient: the error is delivered once and the source then carries on (an interrupted
+	// or timed-out read of a real device); the default is a source that stays failed
+	Transient bool `json:"transient,omitempty"`
 }
 
 var ErrCustom = errors.New("simulated entropy source failure")
@@ -26,6 +31,12 @@ func errOf(name string) error {
 		return io.EOF
 	case "UnexpectedEOF":
 		return io.ErrUnexpectedEOF
+	case "EINTR": // an Errno: has Temporary() and Timeout() methods
+		return syscall.EINTR
+	case "EAGAIN-path":
+		return &os.PathError{Op: "read", Path: "/dev/urandom", Err: syscall.EAGAIN}
+	case "timeout":
+		return os.ErrDeadlineExceeded
 	}
 	return ErrCustom
 }
@@ -118,6 +129,23 @@ func (d *Device) next(n int) []byte {
 // that into a panic the executor reports, instead of a hung worker.
 const MaxCalls = 100000
 
+// MaxStallReads bounds one long stall (consecutive empty reads from one program step).
+const MaxStallReads = 5 << 20
+
+func (d *Device) stallBudget() int {
+	n := 0
+	for _, st := range d.program {
+		if st.Kind == "longstall" {
+			k := st.N
+			if k > MaxStallReads {
+				k = MaxStallReads
+			}
+			n += k
+		}
+	}
+	return n
+}
+
 func (d *Device) Read(p []byte) (int, error) {
 	call := d.Calls
 	d.Calls++
@@ -151,8 +179,11 @@ func (d *Device) Read(p []byte) (int, error) {
 		// progress for a long while (but finitely long) and then carries on
 		if d.longLeft == 0 && !d.longDone[call] {
 			d.longLeft = st.N
-			if d.longLeft > 2000 {
-				d.longLeft = 2000
+			if d.longLeft > MaxStallReads {
+				d.longLeft = MaxStallReads
+			}
+			if d.longLeft >= 1<<20 {
+				d.Fired["stall>=2^20-reads"]++
 			}
 			if d.longDone == nil {
 				d.longDone = map[int]bool{}
@@ -163,7 +194,7 @@ func (d *Device) Read(p []byte) (int, error) {
 			d.longLeft--
 			d.Calls-- // stay on this program step until the stall is over
 			d.reads++
-			if d.reads > MaxCalls {
+			if d.reads > MaxCalls+d.stallBudget() {
 				panic("randomness device: far more reads by one call than its stream and fault program can explain: the call does not terminate")
 			}
 			d.Fired["long-stall-read"]++
@@ -197,18 +228,31 @@ func (d *Device) Read(p []byte) (int, error) {
 		}
 		copy(p, d.next(n))
 		d.Delivered += n
-		d.failed = errOf(st.Err)
-		d.ErrFired = true
-		d.DeliveredAtErr = d.Delivered
+		e := errOf(st.Err)
+		if !st.Transient {
+			d.failed = e
+		}
+		// A transient error that arrives together with every byte the caller asked for is not a
+		// failed draw: the io.Reader contract has the caller use the bytes first, io.ReadFull then
+		// drops the error, and the source is healthy again on the next read. It is delivered (a
+		// caller must cope with it) but not counted as the failure the run is judged by.
+		absorbed := st.Transient && n == len(p)
+		if !d.ErrFired && !absorbed {
+			d.ErrFired = true
+			d.DeliveredAtErr = d.Delivered
+		}
 		k := "err-" + st.Err
+		if st.Transient {
+			k = "transient-" + k
+		}
 		if n == len(p) {
 			k += "-with-all-bytes"
 		} else if n > 0 {
 			k += "-with-some-bytes"
 		}
 		d.Fired[k]++
-		d.log("read#%d len=%d -> %d,%v", call, len(p), n, d.failed)
-		return n, d.failed
+		d.log("read#%d len=%d -> %d,%v", call, len(p), n, e)
+		return n, e
 	}
 	d.stallRun = 0
 	copy(p, d.next(len(p)))
